@@ -11,7 +11,7 @@ from uberjob._util import Missing
 from uberjob._value_store import ValueStore
 
 from vlib import specs
-from vlib.specs import EXC_TYPES, R, Term, W
+from vlib.specs import EXC_TYPES, R, SideRead, Term, W
 
 EPOCH = dt.datetime(2001, 1, 1)
 
@@ -438,6 +438,8 @@ class World:
                 value = Token(("call", i))
                 self.tokens[("call", i)] = weakref.ref(value)
             else:
+                if nd.get("sread") is not None:
+                    args = args + (SideRead(nd["sread"], self.stores[nd["sread"]].value),)
                 value = Term(i, args, kwargs.items())
             del args, kwargs
             side = nd.get("side")
